@@ -1975,6 +1975,19 @@ namespace awkward {
 
     ContentPtr out;
     if (dynamic_cast<SliceJagged64*>(slicecontent.content().get())) {
+      // positions in the slice -> positions in this array's content
+      int64_t k = 0;
+      for (int64_t i = 0;  i < slicestarts.length();  i++) {
+        int64_t slicestart = slicestarts.getitem_at_nowrap(i);
+        int64_t slicestop = slicestops.getitem_at_nowrap(i);
+        int64_t start = (int64_t)starts_.getitem_at_nowrap(i);
+        for (int64_t j = slicestart;  j < slicestop;  j++) {
+          if (missing.getitem_at_nowrap(j) >= 0) {
+            nextcarry.setitem_at_nowrap(k, start + (j - slicestart));
+            k++;
+          }
+        }
+      }
       ContentPtr nextcontent = content_.get()->carry(nextcarry, true);
       ContentPtr next = std::make_shared<ListOffsetArray64>(Identities::none(),
                                                             util::Parameters(),
